@@ -199,7 +199,7 @@ func TestVerifC25(t *testing.T) {
 	if scratch == "" {
 		scratch = os.TempDir()
 	}
-	r.Expect("op:SetAttrs", "op:SetBulkAttrs", "op:Reopen-same", "op:Reopen-fresh", "op:hostile-write", "op:hostile-delete", "op:invalid-type", "op:mirror",
+	r.Expect("op:SetAttrs", "op:SetBulkAttrs", "op:Reopen-same", "op:Reopen-fresh", "op:hostile-write", "op:hostile-delete", "op:hostile-reuse-of-input-map", "op:invalid-type", "op:mirror",
 		"read:present", "read:absent", "read:absent-after-delete", "val:string", "val:int64", "val:bool", "val:float64", "val:coerced", "val:nil-delete",
 		"blocks:equal-checksum", "blocks:unequal-checksum", "blocks:boundary-99/100", "blocks:boundary-199/200", "hostility:none", "hostility:absent", "hostility:present")
 
@@ -410,6 +410,14 @@ func TestVerifC25(t *testing.T) {
 					hist.Steps = append(hist.Steps, c25Step{Op: "SetAttrs", Store: ts.name, ID: aid, Attrs: c25Render(in)})
 					err := ts.st.SetAttrs(aid, in)
 					r.Cover("op:SetAttrs")
+					if mode != "none" {
+						// the caller reuses / scribbles over the map it passed in: the store must have kept its own copy
+						for k := range in {
+							delete(in, k)
+						}
+						in["scribbled-input"] = int64(99)
+						r.Cover("op:hostile-reuse-of-input-map")
+					}
 					valid := c25Valid(attrs)
 					if !valid {
 						r.Cover("op:invalid-type")
@@ -466,6 +474,15 @@ func TestVerifC25(t *testing.T) {
 					hist.Steps = append(hist.Steps, c25Step{Op: "SetBulkAttrs", Store: ts.name, Bulk: rend})
 					if err := ts.st.SetBulkAttrs(in); err != nil {
 						fail(sigA, fmt.Sprintf("store %s SetBulkAttrs error: %v", ts.name, err))
+					}
+					if mode != "none" {
+						for _, mm := range in {
+							for k := range mm {
+								delete(mm, k)
+							}
+							mm["scribbled-input"] = int64(99)
+						}
+						r.Cover("op:hostile-reuse-of-input-map")
 					}
 					r.Cover("op:SetBulkAttrs")
 					for bid, attrs := range bulk {
